@@ -268,3 +268,56 @@ PROPS["C10"] = {
                   "the initial directory is fully synced (empty in all runs); sequential histories; the timer is the event Tick; storage write ERRORS are not injected",
                   "reopening an existing directory makes its journal content durable (goleveldb recovery writes fsync'ed table+manifest): modelled by [reopen] = ld_sync, validated differentially on the Sync:false mutant"],
 }
+
+PROPS["C11"] = {
+  "runs": [],
+  "extras": [{"component": "conc", "timeout": 900}, {"component": "conc", "race": True, "timeout": 900}],
+  "race": True,
+  "anchors": ["leveldb/leveldb.go", "leveldb/leveldbSerial.go", "leveldb/batch.go", "leveldb/serialActions.go"],
+  "exhaustive_claim": False,
+  "rule": "no sequential history run (that is C08). Extra, run once in the plain and once in the race-detector binary: real leveldb.DB / leveldb.SerialDB on LevelDB "
+          "directories, MaxBatchSize 1-3 (50/100 with the 1 s timer), every Put writes a unique value. (a) 16 forced schedules through the verif pause hook (park a goroutine "
+          "at a pause point, run the others, release): pre-fix witnesses F14a (read during hand-over), F14c (two hand-overs out of order), F11 (Get parked between IsRemoved and "
+          "batch.Get at pause point db.get.afterIsRemoved), flusher parked inside its critical section after the write, reader parked between batch miss and LevelDB read, "
+          "Has parked then Remove, Put parked after its batch mutation, two flushers, 1 s timer flush parked; + 300 (quick) / 1500 (thorough) seeded random park/release schedules "
+          "(2-3 goroutines x 2-4 ops, 2 keys, every pause point parks w.p. 1/2, random release order). (b) stress, time-bounded 8 s (quick) / 120 s (thorough) per binary: 3-8 goroutines x 20-60 ops "
+          "over 2-4 keys, delay plans none/Gosched/0-300us sleeps at the pause points, some 1.4 s histories with BatchDelaySeconds=1 so that the timer flushes. (c) every history is "
+          "judged per key by a register linearizability checker (WGL search; call/return stamps from one atomic counter taken before the call / after the return, so intervals are "
+          "never too narrow). A WARNING: DATA RACE in the race binary is a failure (stderr captured; exit code 66 as well). evaluations = histories judged; distinct = distinct scenarios/seeds.",
+  "explanation": "PARTIAL. Props/C11.v: on an interleaving model whose atomic actions are the mutBatch-protected sections, the batch-internal critical sections and the goleveldb calls of the CURRENT code "
+          "(explicit RW-lock, unbuffered-channel process loop serving any parked request, any number of goroutines/keys/calls, every schedule, every MaxBatchSize, every initial disk) both persisters "
+          "are linearizable: classical definition against MapSpec.spec_run with the linearization order exhibited, plus read-after-write and monotonic-reads corollaries, by invariants (unbounded). "
+          "Pre-fix variants kept as _refuted witnesses. The model is tied to /repo by forcing the witness schedules on the real code and by stress histories judged by an independent checker.",
+  "assumptions": ["PARTIAL: the Go memory model and real preemption are not modelled; 'one critical section = one atomic action' is licensed by data-race freedom, which is VALIDATED by running the same workloads under -race, not proved",
+                  "PARTIAL: refinement of the model by the Go code is validated (forced schedules + stress + linearizability checker), not proved",
+                  "goleveldb calls (Write/Get/Has) are atomic and linearizable (same stand-in as C08)",
+                  "no Close/Destroy during the run, LevelDB writes succeed (error paths not modelled)",
+                  "Go's writer preference of RWMutex and the real timer period only remove schedules; the theorems cover the larger set",
+                  "call = first effective action, return = last action of an operation (narrower intervals than the real ones: the stronger claim)"],
+}
+PROPS["C14"] = {
+  "runs": [],
+  "extras": [{"component": "stress", "race": True, "timeout": 900}],
+  "race": True,
+  "anchors": ["txcache/txCache.go", "txcache/eviction.go", "txcache/txListBySenderMap.go", "txcache/txByHashMap.go",
+              "txcache/txListForSender.go", "txcache/selection.go", "txcache/maps/concurrentMap.go", "txcache/crossTxCache.go",
+              "immunitycache/cache.go", "immunitycache/chunk.go", "lrucache/lrucache.go", "lrucache/capacity/capacityLRUCache.go",
+              "timecache/timeCacheCore.go", "timecache/timeCacher.go", "fifocache/fifocacheSharded.go"],
+  "rule": "no history-based run. extra (component stress, race-detector binary, GORACE=halt_on_error=1 exitcode=66): 10 (quick) / 60 (thorough, scale 3) rounds, "
+          "GOMAXPROCS cycling 16,2,4,1,3,8; per round 17 phases, each = 8..95 goroutines over all public operations of one object: "
+          "txcache-addonly / -mixed (add+remove) / -limits (per-sender count 5) / -evict (thresholds 20-60 txs, batches 1/3/7) / -clear / -diagnose (TRACE logging), "
+          "immunity, crosstxcache, immunity-clear, lru-simple, lru-sized, lru-evict-callback, capacity-lru, fifo-sharded, timecache (TimeCache, peerTimeCache, timeCacher + sweeps), "
+          "concurrent-map, concurrent-map-clear; seeded delay plan (Gosched / 5x Gosched / 20-320us sleep) at the four txcache pause points, yields in host/session/iteration callbacks, "
+          "fresh WrappedTransaction per AddTx, same transaction handed in by several goroutines; writers run in epochs with a quiescent instant after each; watchdog 25 s / 120 s per phase, "
+          "recovered panics. Once per run: lock-order graph re-extracted from the source (go/parser) and decided acyclic by coqc; one directed schedule (eviction paused, complete re-add) "
+          "reported as observation. evaluations = monitor evaluations, distinct = phases run.",
+  "explanation": "PARTIAL. Props/C14.v proves what an interleaving model carries: quiescent counters for every schedule by invariant (and the Clear counterexample), C01/C02 for any "
+                 "per-sender snapshots taken at different instants, commutation of concurrent add-only calls (duplicates allowed), the atomic-section theorem instantiated for the immunity cache "
+                 "(coarse, and with ImmunizeKeys split into per-chunk sections), per-sender list invariants after any sequence of list operations, soundness of the lock-order check. "
+                 "Race freedom, no panic, no deadlock, preemption are VALIDATED by the race-detector stress run, whose verdict licenses the atomic-section abstraction.",
+  "assumptions": ["PARTIAL: data races, panics inside Go runtime structures, goroutine/channel deadlocks and preemption are validated by stress under -race, not proved",
+                  "atomic-section abstraction: each critical section (chunk lock, sender-list lock, mutTxOperation, capacityLRU lock, timeCacheCore lock) is one step of the model",
+                  "hash determines content; host/session callbacks do not re-enter the cache",
+                  "lock-order graph: mutexes identified per struct field (type level); 1 self-loop that exists only through interface dispatch (storageCacherAdapter wrapping its own type) set aside and listed",
+                  "schedules explored are those the Go scheduler produces under the delay plan: a sample, not all"],
+}
